@@ -1,0 +1,67 @@
+//go:build verif
+
+package broker
+
+import (
+	"net"
+	"sync/atomic"
+
+	"github.com/emitter-io/emitter/internal/event"
+	"github.com/emitter-io/emitter/internal/message"
+	"github.com/emitter-io/emitter/internal/provider/storage"
+	"github.com/emitter-io/emitter/internal/service/cluster"
+	"github.com/emitter-io/emitter/internal/service/keygen"
+	"github.com/emitter-io/emitter/internal/service/presence"
+)
+
+// Accessors used only by the out-of-tree verification harness (/verif); compiled with -tags verif.
+
+// VerifAttach hands a connection to the broker exactly as onAcceptConn does and returns the broker-side Conn.
+func (s *Service) VerifAttach(t net.Conn) *Conn {
+	conn := s.newConn(t, s.Config.Limit.ReadRate)
+	go conn.Process()
+	return conn
+}
+
+// VerifTrie returns the subscription trie.
+func (s *Service) VerifTrie() *message.Trie { return s.subscriptions }
+
+// VerifStorage returns the message storage.
+func (s *Service) VerifStorage() storage.Storage { return s.storage }
+
+// VerifCluster returns the swarm (nil without a cluster configuration).
+func (s *Service) VerifCluster() *cluster.Swarm { return s.cluster }
+
+// VerifKeygen returns the key generation service.
+func (s *Service) VerifKeygen() *keygen.Service { return s.keygen }
+
+// VerifConnections returns the number of open connections.
+func (s *Service) VerifConnections() int64 { return atomic.LoadInt64(&s.connections) }
+
+// VerifCounters returns the number of subscription counters held by the connection.
+func (c *Conn) VerifCounters() int { return len(c.subs.All()) }
+
+type verifSentinel struct{ done chan struct{} }
+
+func (v *verifSentinel) ID() string                   { return "verif-sentinel" }
+func (v *verifSentinel) Type() message.SubscriberType { return message.SubscriberDirect }
+func (v *verifSentinel) Send(*message.Message) error {
+	select {
+	case <-v.done:
+	default:
+		close(v.done)
+	}
+	return nil
+}
+
+// VerifPresenceBarrier returns once every presence notification queued before the call has been published:
+// it pushes a sentinel notification through the (FIFO, single consumer) presence queue and waits for its delivery.
+func (s *Service) VerifPresenceBarrier() {
+	v := &verifSentinel{done: make(chan struct{})}
+	ssid := message.Ssid{0xFFFFFFF1, 1}
+	pssid := message.NewSsidForPresence(ssid)
+	s.subscriptions.Subscribe(pssid, v)
+	s.presence.Notify(presence.EventTypeSubscribe, &event.Subscription{Ssid: ssid, Channel: []byte("verif/")}, nil)
+	<-v.done
+	s.subscriptions.Unsubscribe(pssid, v)
+}
